@@ -79,21 +79,25 @@ pub fn predicate_pushdown_rules() -> Vec<Rewrite> { vec![
         "(join ?type (and ?cond1 ?cond2) ?left ?right)" =>
         "(join ?type ?cond2 (filter ?cond1 ?left) ?right)"
         if not_depend_on("?cond1", "?right")
+        if join_type_in("?type", LEFT_NOT_PRESERVED)
     ),
     rw!("pushdown-join-condition-left-1";
         "(join ?type ?cond1 ?left ?right)" =>
         "(join ?type true (filter ?cond1 ?left) ?right)"
         if not_depend_on("?cond1", "?right")
+        if join_type_in("?type", LEFT_NOT_PRESERVED)
     ),
     rw!("pushdown-join-condition-right";
         "(join ?type (and ?cond1 ?cond2) ?left ?right)" =>
         "(join ?type ?cond2 ?left (filter ?cond1 ?right))"
         if not_depend_on("?cond1", "?left")
+        if join_type_in("?type", RIGHT_NOT_PRESERVED)
     ),
     rw!("pushdown-join-condition-right-1";
         "(join ?type ?cond1 ?left ?right)" =>
         "(join ?type true ?left (filter ?cond1 ?right))"
         if not_depend_on("?cond1", "?left")
+        if join_type_in("?type", RIGHT_NOT_PRESERVED)
     ),
     rw!("pushdown-filter-apply-left";
         "(filter ?cond (apply ?type ?left ?right))" =>
@@ -471,6 +475,20 @@ fn has_vector_index(
         }
         false
     }
+}
+
+/// Join types under which a conjunct of the join condition that refers to the left input only
+/// may be evaluated as a filter of the left input: those that do not keep unmatched left rows
+/// (and `anti`, which keeps exactly the unmatched ones, is not among them either).
+const LEFT_NOT_PRESERVED: &[Expr] = &[Expr::Inner, Expr::Semi, Expr::RightOuter];
+/// The same for the right input. The right rows of a semi / anti join are never output, so a
+/// right-only conjunct just restricts what can match.
+const RIGHT_NOT_PRESERVED: &[Expr] = &[Expr::Inner, Expr::Semi, Expr::Anti, Expr::LeftOuter];
+
+/// Returns true if the join type bound to `ty` is one of `types`.
+fn join_type_in(ty: &str, types: &'static [Expr]) -> impl Fn(&mut EGraph, Id, &Subst) -> bool {
+    let ty = var(ty);
+    move |egraph, _, subst| egraph[subst[ty]].nodes.iter().any(|n| types.contains(n))
 }
 
 /// Returns true if the columns used in `expr` is disjoint from columns produced by `plan`.
